@@ -2,10 +2,415 @@
 From TxV Require Import Core.Base Model.RepoDefs Gen.SrcRepo Model.Repo.
 Require Import Lia.
 
-Lemma cached_load_returns_cached fs c f s m :
-  cglobal c = true -> dget f (allm s) = Some m -> flag_of fmp m s = false ->
-  fst (load_main fs c f s) = inr m /\ reads (snd (load_main fs c f s)) = [] /\ allm (snd (load_main fs c f s)) = allm s.
+(* ------------------------------------------------------------------ facts from the source (Gen/SrcRepo.v) *)
+Lemma src_register_before : register_before_imports = true. Proof. reflexivity. Qed.
+Lemma src_cleanup_outer : cleanup_construction_failure = true. Proof. reflexivity. Qed.
+Lemma src_cleanup_inner : cleanup_resolution_failure = true. Proof. reflexivity. Qed.
+Lemma src_cleanup_mp : cleanup_model_processor_failure = true. Proof. reflexivity. Qed.
+Lemma src_lookup_order : lookup_order = [SOwn; SLocal; SBuiltin]. Proof. reflexivity. Qed.
+
+(* ------------------------------------------------------------------ dictionaries *)
+Notation keys s := (map fst (allm s)).
+Notation vals s := (map snd (allm s)).
+
+Lemma mem_In x l : mem x l = true <-> In x l.
 Proof.
-  intros Hg Hc Hmp. unfold load_main, begin_op. rewrite Hg. cbn [allm with_reads].
-  rewrite Hc. unfold flag_of, cont_of in *. cbn [heap with_reads] in *. rewrite Hmp. cbn. auto.
+  unfold mem. rewrite existsb_exists. split.
+  - intros [y [Hy E]]. apply Nat.eqb_eq in E. subst. exact Hy.
+  - intro H. exists x. split; [exact H | apply Nat.eqb_refl].
+Qed.
+Lemma mem_false x l : mem x l = false <-> ~ In x l.
+Proof.
+  rewrite <- mem_In. destruct (mem x l); split; intro H; try reflexivity; try discriminate.
+  exfalso; apply H; reflexivity.
+Qed.
+
+Section Dict.
+  Context {A : Type}.
+  Implicit Types (l : list (nat * A)).
+
+  Lemma dget_dset_same k v l : dget k (dset k v l) = Some v.
+  Proof.
+    induction l as [|[k' v'] t IH]; cbn.
+    - rewrite Nat.eqb_refl. reflexivity.
+    - destruct (Nat.eqb k k') eqn:E; cbn; rewrite ?Nat.eqb_refl, ?E; auto.
+  Qed.
+  Lemma dget_dset_other k k' v l : k <> k' -> dget k' (dset k v l) = dget k' l.
+  Proof.
+    intro Hn. induction l as [|[k2 v2] t IH]; cbn.
+    - destruct (Nat.eqb k' k) eqn:E; [apply Nat.eqb_eq in E; congruence | reflexivity].
+    - destruct (Nat.eqb k k2) eqn:E; cbn.
+      + apply Nat.eqb_eq in E. subst k2.
+        destruct (Nat.eqb k' k) eqn:E2; [apply Nat.eqb_eq in E2; congruence | reflexivity].
+      + destruct (Nat.eqb k' k2); auto.
+  Qed.
+  Lemma dget_None_notin k l : dget k l = None <-> ~ In k (map fst l).
+  Proof.
+    induction l as [|[k' v'] t IH]; cbn; [tauto|].
+    destruct (Nat.eqb k k') eqn:E.
+    - apply Nat.eqb_eq in E. subst. split; [discriminate | intro H; exfalso; apply H; auto].
+    - apply Nat.eqb_neq in E. rewrite IH. split; intro H; [intros [H1|H1]; [congruence | tauto] | tauto].
+  Qed.
+  Lemma dget_In k v l : dget k l = Some v -> In (k, v) l.
+  Proof.
+    induction l as [|[k' v'] t IH]; cbn; [discriminate|].
+    destruct (Nat.eqb k k') eqn:E.
+    - apply Nat.eqb_eq in E. intro H. inversion H. subst. auto.
+    - auto.
+  Qed.
+  Lemma In_dget k v l : NoDup (map fst l) -> In (k, v) l -> dget k l = Some v.
+  Proof.
+    induction l as [|[k' v'] t IH]; cbn; [tauto|]. intros Hnd [H|H].
+    - inversion H. subst. rewrite Nat.eqb_refl. reflexivity.
+    - inversion Hnd as [|? ? Hni Hnd']. subst. destruct (Nat.eqb k k') eqn:E.
+      + apply Nat.eqb_eq in E. subst. exfalso. apply Hni. apply in_map_iff. exists (k', v). auto.
+      + auto.
+  Qed.
+  Lemma dhas_true k l : dhas k l = true <-> In k (map fst l).
+  Proof.
+    unfold dhas. destruct (dget k l) eqn:E.
+    - split; [|reflexivity]. intros _. apply dget_In in E. apply in_map_iff. exists (k, a). auto.
+    - split; [discriminate|]. intro H. apply dget_None_notin in E. tauto.
+  Qed.
+  Lemma dhas_false k l : dhas k l = false <-> ~ In k (map fst l).
+  Proof.
+    rewrite <- dhas_true. destruct (dhas k l); split; intro H; try reflexivity; try discriminate.
+    exfalso; apply H; reflexivity.
+  Qed.
+  Lemma dset_same k v l : dget k l = Some v -> dset k v l = l.
+  Proof.
+    induction l as [|[k' v'] t IH]; cbn; [discriminate|].
+    destruct (Nat.eqb k k') eqn:E.
+    - apply Nat.eqb_eq in E. intro H. inversion H. subst. reflexivity.
+    - intro H. rewrite IH; auto.
+  Qed.
+  Lemma dset_fresh k v l : dget k l = None -> dset k v l = l ++ [(k, v)].
+  Proof.
+    induction l as [|[k' v'] t IH]; cbn; [reflexivity|].
+    destruct (Nat.eqb k k'); [discriminate|]. intro H. rewrite IH; auto.
+  Qed.
+  Lemma keys_dset_in k v l : In k (map fst l) -> map fst (dset k v l) = map fst l.
+  Proof.
+    induction l as [|[k' v'] t IH]; cbn; [tauto|]. intros H.
+    destruct (Nat.eqb k k') eqn:E; cbn.
+    - apply Nat.eqb_eq in E. subst. reflexivity.
+    - apply Nat.eqb_neq in E. destruct H as [H|H]; [congruence|]. rewrite IH; auto.
+  Qed.
+  Lemma keys_dset_notin k v l : ~ In k (map fst l) -> map fst (dset k v l) = map fst l ++ [k].
+  Proof. intro H. apply dget_None_notin in H. rewrite dset_fresh by exact H. rewrite map_app. reflexivity. Qed.
+  Lemma keys_dset_cases k v l :
+    (In k (map fst l) /\ map fst (dset k v l) = map fst l) \/ (~ In k (map fst l) /\ map fst (dset k v l) = map fst l ++ [k]).
+  Proof.
+    destruct (in_dec Nat.eq_dec k (map fst l)) as [H|H]; [left | right]; split; auto using keys_dset_in, keys_dset_notin.
+  Qed.
+  Lemma In_ddel kv k l : In kv (ddel k l) -> In kv l.
+  Proof.
+    induction l as [|[k' v'] t IH]; cbn; [tauto|]. destruct (Nat.eqb k k'); cbn; intuition.
+  Qed.
+End Dict.
+
+Lemma NoDup_snoc {A} (l : list A) x : NoDup l -> ~ In x l -> NoDup (l ++ [x]).
+Proof.
+  intros Hnd Hni. induction l as [|a t IH]; cbn.
+  - constructor; [tauto | constructor].
+  - inversion Hnd; subst. constructor.
+    + rewrite in_app_iff. cbn. intros [H|[H|[]]]; [tauto | subst; apply Hni; left; reflexivity].
+    + apply IH; [assumption | intro H; apply Hni; right; exact H].
+Qed.
+
+(* ------------------------------------------------------------------ projections of the state updates *)
+Lemma allm_set_local m g v s : allm (set_local m g v s) = allm s. Proof. reflexivity. Qed.
+Lemma reads_set_local m g v s : reads (set_local m g v s) = reads s. Proof. reflexivity. Qed.
+Lemma heap_set_local m g v s : heap (set_local m g v s) = heap s. Proof. reflexivity. Qed.
+Lemma constr_set_local m g v s : constr (set_local m g v s) = constr s. Proof. reflexivity. Qed.
+Lemma allm_set_all g v s : allm (set_all g v s) = dset g v (allm s). Proof. reflexivity. Qed.
+Lemma reads_set_all g v s : reads (set_all g v s) = reads s. Proof. reflexivity. Qed.
+Lemma heap_set_all g v s : heap (set_all g v s) = heap s. Proof. reflexivity. Qed.
+Lemma constr_set_all g v s : constr (set_all g v s) = constr s. Proof. reflexivity. Qed.
+Lemma locals_set_all g v s : locals (set_all g v s) = locals s. Proof. reflexivity. Qed.
+Lemma allm_alloc g fc s : allm (alloc g fc s) = allm s. Proof. reflexivity. Qed.
+Lemma reads_alloc g fc s : reads (alloc g fc s) = reads s. Proof. reflexivity. Qed.
+Lemma heap_alloc g fc s : heap (alloc g fc s) = heap s ++ [mkMinfo g (curop s) fc]. Proof. reflexivity. Qed.
+Lemma constr_alloc g fc s : constr (alloc g fc s) = length (heap s) :: constr s. Proof. reflexivity. Qed.
+Lemma locals_alloc g fc s : locals (alloc g fc s) = locals s. Proof. reflexivity. Qed.
+Lemma allm_with_reads s r : allm (with_reads s r) = allm s. Proof. reflexivity. Qed.
+Lemma reads_with_reads s r : reads (with_reads s r) = r. Proof. reflexivity. Qed.
+Lemma heap_with_reads s r : heap (with_reads s r) = heap s. Proof. reflexivity. Qed.
+Lemma constr_with_reads s r : constr (with_reads s r) = constr s. Proof. reflexivity. Qed.
+Lemma locals_with_reads s r : locals (with_reads s r) = locals s. Proof. reflexivity. Qed.
+Global Hint Rewrite allm_set_local reads_set_local heap_set_local constr_set_local allm_set_all reads_set_all heap_set_all
+  constr_set_all locals_set_all allm_alloc reads_alloc heap_alloc constr_alloc locals_alloc allm_with_reads reads_with_reads
+  heap_with_reads constr_with_reads locals_with_reads : st.
+
+Lemma reads_remove_from_repos models rem s : reads (remove_from_repos models rem s) = reads s.
+Proof. unfold remove_from_repos. revert s. induction models as [|x t IH]; intro s; cbn; [reflexivity|]. rewrite IH. reflexivity. Qed.
+Lemma heap_remove_from_repos models rem s : heap (remove_from_repos models rem s) = heap s.
+Proof. unfold remove_from_repos. revert s. induction models as [|x t IH]; intro s; cbn; [reflexivity|]. rewrite IH. reflexivity. Qed.
+Lemma constr_remove_from_repos models rem s : constr (remove_from_repos models rem s) = constr s.
+Proof. unfold remove_from_repos. revert s. induction models as [|x t IH]; intro s; cbn; [reflexivity|]. rewrite IH. reflexivity. Qed.
+Lemma reads_handler m s : reads (handler m s) = reads s.
+Proof. unfold handler. destruct cleanup_construction_failure; [apply reads_remove_from_repos | reflexivity]. Qed.
+Lemma heap_handler m s : heap (handler m s) = heap s.
+Proof. unfold handler. destruct cleanup_construction_failure; [apply heap_remove_from_repos | reflexivity]. Qed.
+Lemma constr_handler m s : constr (handler m s) = constr s.
+Proof. unfold handler. destruct cleanup_construction_failure; [apply constr_remove_from_repos | reflexivity]. Qed.
+
+Lemma reads_update_in_repo m mf s : reads (update_in_repo m mf s) = reads s.
+Proof. unfold update_in_repo. destruct (dhas mf (allm s)); reflexivity. Qed.
+Lemma keys_update_in_repo m mf s :
+  In mf (keys (update_in_repo m mf s)) /\ incl (keys s) (keys (update_in_repo m mf s)) /\
+  (keys (update_in_repo m mf s) = keys s \/ (~ In mf (keys s) /\ keys (update_in_repo m mf s) = keys s ++ [mf])).
+Proof.
+  unfold update_in_repo. destruct (dhas mf (allm s)) eqn:E.
+  - apply dhas_true in E. repeat split; auto using incl_refl.
+  - apply dhas_false in E. autorewrite with st. rewrite keys_dset_notin by exact E. repeat split.
+    + apply in_or_app. right. left. reflexivity.
+    + apply incl_appl, incl_refl.
+    + right. auto.
+Qed.
+
+(* ================================================================== 1. fuel bound and "each file is read once" *)
+Section Once.
+  Variable fs : list file.
+  Variable c : cfg.
+  Let n := length fs.
+
+  (* the key set of all_models is duplicate free and consists of existing files *)
+  Definition K (s : state) : Prop := NoDup (keys s) /\ (forall k, In k (keys s) -> k < n).
+
+  Lemma K_length s : K s -> length (keys s) <= n.
+  Proof.
+    intros [Hnd Hb]. rewrite <- (seq_length n 0). apply NoDup_incl_length; [exact Hnd|].
+    intros k Hk. apply in_seq. specialize (Hb k Hk). lia.
+  Qed.
+  Lemma K_fresh_length s g : K s -> g < n -> ~ In g (keys s) -> length (keys s) + 1 <= n.
+  Proof.
+    intros [Hnd Hb] Hg Hni.
+    assert (H : length (g :: keys s) <= n).
+    { rewrite <- (seq_length n 0). apply NoDup_incl_length; [constructor; assumption|].
+      intros k [Hk|Hk]; apply in_seq; [subst; lia | specialize (Hb k Hk); lia]. }
+    cbn in H. lia.
+  Qed.
+  Lemma K_dset s g v : K s -> g < n -> K (set_all g v s).
+  Proof.
+    intros [Hnd Hb] Hg. unfold K. autorewrite with st.
+    destruct (keys_dset_cases g v (allm s)) as [[Hin ->]|[Hni ->]]; [split; assumption|].
+    split; [apply NoDup_snoc; assumption|]. intros k Hk. apply in_app_or in Hk as [Hk|[Hk|[]]]; [auto | subst; exact Hg].
+  Qed.
+  Lemma K_update s m mf : K s -> mf < n -> K (update_in_repo m mf s).
+  Proof. intros HK Hm. unfold update_in_repo. destruct (dhas mf (allm s)); [exact HK | apply K_dset; assumption]. Qed.
+
+  (* specification of a loader for imported files, at a given fuel *)
+  Definition loader_ok (k : nat) (ld : nat -> state -> (err + nat) * state) : Prop :=
+    forall g s, K s -> ~ In g (keys s) -> n + 1 <= k + length (keys s) ->
+      NoDup (reads s) -> incl (reads s) (keys s) ->
+      fst (ld g s) <> inl EFuel /\ NoDup (reads (snd (ld g s))) /\
+      (forall m, fst (ld g s) = inr m ->
+         K (snd (ld g s)) /\ incl (keys s) (keys (snd (ld g s))) /\ In g (keys (snd (ld g s))) /\
+         incl (reads (snd (ld g s))) (keys (snd (ld g s)))).
+
+  Lemma load_model_once k ld m g s r s' :
+    loader_ok k ld -> K s -> n + 1 <= k + length (keys s) -> NoDup (reads s) -> incl (reads s) (keys s) ->
+    load_model ld m g s = (r, s') ->
+    r <> Some EFuel /\ NoDup (reads s') /\
+    (r = None -> K s' /\ incl (keys s) (keys s') /\ incl (reads s') (keys s')).
+  Proof.
+    intros Hld HK Hf Hnd Hinc. unfold load_model.
+    destruct (dhas g (local_of m s)).
+    { intro H. inversion H; subst. split; [discriminate|]. split; [exact Hnd|]. intros _.
+      split; [exact HK|]. split; [apply incl_refl | exact Hinc]. }
+    destruct (dget g (allm s)) as [m'|] eqn:Eg.
+    { intro H. inversion H; subst. autorewrite with st. split; [discriminate|]. split; [exact Hnd|]. intros _.
+      split; [exact HK|]. split; [apply incl_refl | exact Hinc]. }
+    apply dget_None_notin in Eg.
+    destruct (Hld g s HK Eg Hf Hnd Hinc) as [Hnf [Hnd' Hok]].
+    destruct (ld g s) as [[e|m'] s1] eqn:El; cbn [fst snd] in *.
+    - intro H. inversion H; subst. split; [congruence|]. split; [exact Hnd' | discriminate].
+    - intro H. inversion H; subst. destruct (Hok m' eq_refl) as [HK1 [Hi1 [Hg1 Hr1]]].
+      unfold K. autorewrite with st. rewrite (keys_dset_in g m' (allm s1) Hg1).
+      split; [discriminate|]. split; [exact Hnd'|]. intros _. split; [exact HK1|]. split; assumption.
+  Qed.
+
+  Lemma load_files_once k ld m gs : forall s r s',
+    loader_ok k ld -> K s -> n + 1 <= k + length (keys s) -> NoDup (reads s) -> incl (reads s) (keys s) ->
+    load_files ld m gs s = (r, s') ->
+    r <> Some EFuel /\ NoDup (reads s') /\
+    (r = None -> K s' /\ incl (keys s) (keys s') /\ incl (reads s') (keys s')).
+  Proof.
+    induction gs as [|g gs IH]; intros s r s' Hld HK Hf Hnd Hinc; cbn.
+    - intro H. inversion H; subst. split; [discriminate|]. split; [exact Hnd|]. intros _.
+      split; [exact HK|]. split; [apply incl_refl | exact Hinc].
+    - destruct (load_model ld m g s) as [r1 s1] eqn:E1.
+      destruct (load_model_once _ _ _ _ _ _ _ Hld HK Hf Hnd Hinc E1) as [Hnf [Hnd1 Hok]].
+      destruct r1 as [e|].
+      + intro H. inversion H; subst. split; [exact Hnf|]. split; [exact Hnd1 | discriminate].
+      + destruct (Hok eq_refl) as [HK1 [Hi1 Hr1]]. intro H.
+        assert (Hlen : length (keys s) <= length (keys s1)) by (apply NoDup_incl_length; [destruct HK; assumption | exact Hi1]).
+        destruct (IH s1 r s' Hld HK1 ltac:(lia) Hnd1 Hr1 H) as [Hnf2 [Hnd2 Hok2]].
+        split; [exact Hnf2|]. split; [exact Hnd2|]. intro Hr. destruct (Hok2 Hr) as [HK2 [Hi2 Hr2]].
+        split; [exact HK2|]. split; [eapply incl_tran; eassumption | exact Hr2].
+  Qed.
+
+  Lemma load_stmts_once k ld m mf stmts : forall s r s',
+    loader_ok k ld -> K s -> mf < n ->
+    n + 1 <= k + length (keys (update_in_repo m mf s)) ->
+    NoDup (reads s) -> (forall x, In x (reads s) -> In x (keys s) \/ x = mf) ->
+    load_stmts ld m mf stmts s = (r, s') ->
+    r <> Some EFuel /\ NoDup (reads s') /\
+    (r = None -> K s' /\ incl (keys s) (keys s') /\ (forall x, In x (reads s') -> In x (keys s') \/ x = mf)).
+  Proof.
+    induction stmts as [|gs rest IH]; intros s r s' Hld HK Hmf Hf Hnd Hinc; cbn.
+    - intro H. inversion H; subst. split; [discriminate|]. split; [exact Hnd|]. intros _.
+      split; [exact HK|]. split; [apply incl_refl | exact Hinc].
+    - pose proof (K_update s m mf HK Hmf) as HK1.
+      destruct (keys_update_in_repo m mf s) as [Hin1 [Hi1 _]].
+      assert (Hr1 : incl (reads (update_in_repo m mf s)) (keys (update_in_repo m mf s))).
+      { rewrite reads_update_in_repo. intros x Hx. destruct (Hinc x Hx) as [H|H]; [apply Hi1; exact H | subst; exact Hin1]. }
+      assert (Hnd1 : NoDup (reads (update_in_repo m mf s))) by (rewrite reads_update_in_repo; exact Hnd).
+      destruct gs as [|g0 gs0].
+      + intro H. inversion H; subst. split; [discriminate|]. split; [exact Hnd1 | discriminate].
+      + destruct (load_files ld m (g0 :: gs0) (update_in_repo m mf s)) as [r2 s2] eqn:E2.
+        destruct (load_files_once _ _ _ _ _ _ _ Hld HK1 Hf Hnd1 Hr1 E2) as [Hnf2 [Hnd2 Hok2]].
+        destruct r2 as [e|].
+        * intro H. inversion H; subst. split; [exact Hnf2|]. split; [exact Hnd2 | discriminate].
+        * destruct (Hok2 eq_refl) as [HK2 [Hi2 Hr2]]. intro H.
+          assert (Hlen : length (keys (update_in_repo m mf s)) <= length (keys s2))
+            by (apply NoDup_incl_length; [destruct HK1; assumption | exact Hi2]).
+          assert (Hin2 : In mf (keys s2)) by (apply Hi2; exact Hin1).
+          assert (Hf2 : n + 1 <= k + length (keys (update_in_repo m mf s2))).
+          { destruct (keys_update_in_repo m mf s2) as [_ [Hi3 _]].
+            assert (length (keys s2) <= length (keys (update_in_repo m mf s2)))
+              by (apply NoDup_incl_length; [destruct HK2; assumption | exact Hi3]). lia. }
+          destruct (IH s2 r s' Hld HK2 Hmf Hf2 Hnd2 ltac:(intros x Hx; left; apply Hr2; exact Hx) H) as [Hnf3 [Hnd3 Hok3]].
+          split; [exact Hnf3|]. split; [exact Hnd3|]. intro Hr. destruct (Hok3 Hr) as [HK3 [Hi3 Hr3]].
+          split; [exact HK3|]. split; [|exact Hr3]. eapply incl_tran; [exact Hi1|]. eapply incl_tran; eassumption.
+  Qed.
+
+  (* load_file: the fuel never runs out as long as fuel + |registered files| exceeds the number of files *)
+  Lemma load_file_once fuel : forall main g s,
+    K s -> ~ In g (keys s) -> n + 1 <= fuel + length (keys s) ->
+    NoDup (reads s) -> incl (reads s) (keys s) ->
+    fst (load_file fs c fuel main g s) <> inl EFuel /\ NoDup (reads (snd (load_file fs c fuel main g s))) /\
+    (forall m, fst (load_file fs c fuel main g s) = inr m ->
+       K (snd (load_file fs c fuel main g s)) /\ incl (keys s) (keys (snd (load_file fs c fuel main g s))) /\
+       (main = false -> In g (keys (snd (load_file fs c fuel main g s))) /\
+                        incl (reads (snd (load_file fs c fuel main g s))) (keys (snd (load_file fs c fuel main g s))))).
+  Proof.
+    induction fuel as [|k IH]; intros main g s HK Hg Hf Hnd Hinc.
+    { exfalso. pose proof (K_length s HK). cbn in Hf.
+      (* fuel 0: n + 1 <= |keys| <= n *) lia. }
+    cbn [load_file].
+    destruct (nth_error fs g) as [fc|] eqn:Efc.
+    2:{ cbn. split; [discriminate|]. split; [exact Hnd | discriminate]. }
+    assert (Hgn : g < n) by (apply nth_error_Some; congruence).
+    assert (Hfresh : ~ In g (reads s)) by (intro H; apply Hg, Hinc, H).
+    assert (Hnd1 : NoDup (reads s ++ [g])) by (apply NoDup_snoc; assumption).
+    destruct (fsyn fc).
+    { cbn. split; [discriminate|]. split; [exact Hnd1 | discriminate]. }
+    rewrite src_register_before.
+    set (s1 := with_reads s (reads s ++ [g])).
+    set (mid := length (heap s1)).
+    set (s2 := alloc g fc s1).
+    set (s3 := if (main && negb (cglobal c))%bool then s2 else set_all g mid s2).
+    assert (HK3 : K s3).
+    { subst s3. destruct (main && negb (cglobal c))%bool; [exact HK | apply K_dset; [exact HK | exact Hgn]]. }
+    assert (Hkeys3 : (keys s3 = keys s /\ (main && negb (cglobal c))%bool = true) \/
+                     (keys s3 = keys s ++ [g] /\ (main && negb (cglobal c))%bool = false)).
+    { subst s3. destruct (main && negb (cglobal c))%bool; [left; split; reflexivity|]. right. split; [|reflexivity].
+      autorewrite with st. apply keys_dset_notin. exact Hg. }
+    assert (Hreads3 : reads s3 = reads s ++ [g]).
+    { subst s3. destruct (main && negb (cglobal c))%bool; reflexivity. }
+    assert (Hld : loader_ok k (load_file fs c k false)).
+    { intros g' s' HK' Hg' Hf' Hnd' Hinc'. destruct (IH false g' s' HK' Hg' Hf' Hnd' Hinc') as [A [B C]].
+      split; [exact A|]. split; [exact B|]. intros m Hm. destruct (C m Hm) as [C1 [C2 C3]]. destruct (C3 eq_refl). auto. }
+    assert (Hpre3 : forall x, In x (reads s3) -> In x (keys s3) \/ x = g).
+    { rewrite Hreads3. intros x Hx. apply in_app_or in Hx as [Hx|[Hx|[]]]; [left|right; auto].
+      destruct Hkeys3 as [[-> _]|[-> _]]; [apply Hinc, Hx | apply in_or_app; left; apply Hinc, Hx]. }
+    assert (Hf3 : n + 1 <= k + length (keys (update_in_repo mid g s3))).
+    { destruct (keys_update_in_repo mid g s3) as [Hin [Hi Hc]].
+      destruct Hkeys3 as [[E _]|[E _]].
+      - destruct Hc as [Hc|[Hni Hc]].
+        + exfalso. rewrite Hc, E in Hin. tauto.
+        + rewrite Hc, E, app_length. change (length [g]) with 1. lia.
+      - assert (length (keys s3) <= length (keys (update_in_repo mid g s3)))
+          by (apply NoDup_incl_length; [destruct HK3; assumption | exact Hi]).
+        rewrite E, app_length in H. change (length [g]) with 1 in H. lia. }
+    assert (Hnd3 : NoDup (reads s3)) by (rewrite Hreads3; exact Hnd1).
+    destruct (if (clazy c && is_nil (frefs fc))%bool then (None, s3)
+              else load_stmts (load_file fs c k false) mid g (fimports fc) s3) as [r s4] eqn:E4.
+    assert (Hres : r <> Some EFuel /\ NoDup (reads s4) /\
+                   (r = None -> K s4 /\ incl (keys s3) (keys s4) /\ (forall x, In x (reads s4) -> In x (keys s4) \/ x = g))).
+    { destruct (clazy c && is_nil (frefs fc))%bool.
+      - inversion E4; subst. split; [discriminate|]. split; [exact Hnd3|]. intros _. split; [exact HK3|]. split; [apply incl_refl | exact Hpre3].
+      - exact (load_stmts_once _ _ _ _ _ _ _ _ Hld HK3 Hgn Hf3 Hnd3 Hpre3 E4). }
+    destruct Hres as [Hnf [Hnd4 Hok]].
+    destruct r as [e|].
+    { cbn [fst snd]. split; [congruence|]. split; [rewrite reads_handler; exact Hnd4 | discriminate]. }
+    destruct (Hok eq_refl) as [HK4 [Hi4 Hr4]].
+    assert (Hincl : incl (keys s) (keys s4)).
+    { eapply incl_tran; [|exact Hi4]. destruct Hkeys3 as [[-> _]|[-> _]]; [apply incl_refl | apply incl_appl, incl_refl]. }
+    assert (Hmainfalse : main = false -> In g (keys s4) /\ incl (reads s4) (keys s4)).
+    { intro Hm. subst main. destruct Hkeys3 as [[_ E]|[E _]].
+      - discriminate E.
+      - assert (Hg4 : In g (keys s4)) by (apply Hi4; rewrite E; apply in_or_app; right; left; reflexivity).
+        split; [exact Hg4|]. intros x Hx. destruct (Hr4 x Hx) as [H|H]; [exact H | subst; exact Hg4]. }
+    destruct main.
+    - cbn [fst snd]. split; [discriminate|]. split; [exact Hnd4|]. intros m _. split; [exact HK4|]. split; [exact Hincl | discriminate].
+    - destruct (fmp fc); cbn [fst snd].
+      + split; [discriminate|]. split; [exact Hnd4 | discriminate].
+      + split; [discriminate|]. split; [exact Hnd4|]. intros m _. split; [exact HK4|]. split; [exact Hincl | exact Hmainfalse].
+  Qed.
+End Once.
+
+(* resolution does not touch the repositories *)
+Lemma resolve_all_frame c models : forall s s', resolve_all c models s = inr s' ->
+  reads s' = reads s /\ allm s' = allm s /\ heap s' = heap s /\ locals s' = locals s /\ constr s' = constr s.
+Proof.
+  induction models as [|x t IH]; intros s s'; cbn.
+  - intro H. inversion H. auto.
+  - destruct (resolve_refs c s x (refs_of x s)); [|discriminate]. intro H. apply IH in H. cbn in H. exact H.
+Qed.
+
+Lemma reads_finish_main c f m cached s : reads (snd (finish_main c f m cached s)) = reads s.
+Proof.
+  unfold finish_main.
+  destruct (resolve_all c _ s) as [e|s2] eqn:E.
+  - cbn [fst snd]. rewrite reads_handler. destruct cleanup_resolution_failure; [apply reads_remove_from_repos | reflexivity].
+  - apply resolve_all_frame in E. destruct E as [Er _].
+    destruct (first_obj_fail _ _).
+    + cbn [fst snd]. rewrite reads_handler. destruct cleanup_resolution_failure; [rewrite reads_remove_from_repos|]; exact Er.
+    + destruct (flag_of fmp m _); cbn [fst snd]; [|exact Er].
+      destruct cleanup_model_processor_failure; [rewrite reads_remove_from_repos|]; exact Er.
+Qed.
+Lemma fst_finish_main_nofuel c f m cached s : fst (finish_main c f m cached s) <> inl EFuel.
+Proof.
+  unfold finish_main. destruct (resolve_all c _ s) as [e|s2] eqn:E.
+  - cbn. revert E. generalize (filter (fun x => mem x (constr s)) (included m s)). intros l. revert s.
+    induction l as [|x t IH]; intros s; cbn; [discriminate|].
+    destruct (resolve_refs c s x (refs_of x s)); [apply IH|]. intro H. inversion H. discriminate.
+  - destruct (first_obj_fail _ _) as [e|] eqn:Eo.
+    + cbn. revert Eo. generalize (filter (fun x => mem x (constr s)) (included m s)). intros l.
+      generalize (with_constr s2 (filter (fun x => negb (mem x l)) (constr s2))). intros s3.
+      induction l as [|x t IH]; cbn; [discriminate|]. destruct (flag_of fobj x s3); [|exact IH].
+      intro H. inversion H. discriminate.
+    + destruct (flag_of fmp m _); cbn; discriminate.
+Qed.
+
+(* C17, first part: a top-level load never runs out of its fuel |files|+1, and opens no file twice. *)
+Theorem load_main_once fs c f s :
+  K fs (begin_op c s) ->
+  fst (load_main fs c f s) <> inl EFuel /\ NoDup (reads (snd (load_main fs c f s))).
+Proof.
+  intro HK. unfold load_main.
+  set (s0 := begin_op c s) in *.
+  assert (Hr0 : reads s0 = []) by reflexivity.
+  destruct (if cglobal c then dget f (allm s0) else None) as [m|] eqn:Ec.
+  { destruct (flag_of fmp m s0); cbn [fst snd]; rewrite Hr0; split; try discriminate; constructor. }
+  assert (Hf : ~ In f (keys s0)).
+  { destruct (cglobal c) eqn:Eg; [apply dget_None_notin; exact Ec|]. subst s0. unfold begin_op. rewrite Eg. cbn. tauto. }
+  destruct (load_file_once fs c (S (length fs)) true f s0 HK Hf ltac:(lia)
+              ltac:(rewrite Hr0; constructor) ltac:(rewrite Hr0; intros x [])) as [A [B _]].
+  destruct (load_file fs c (S (length fs)) true f s0) as [[e|m] s1]; cbn [fst snd] in *.
+  - split; assumption.
+  - split; [apply fst_finish_main_nofuel | rewrite reads_finish_main; exact B].
 Qed.
